@@ -12,6 +12,14 @@
  *   GITSHIM_MATCH     optional substring that argv (joined by ' ') must contain
  *                     for the call to be counted as a fault candidate
  *
+ *   GITSHIM_SYNC_DIR / GITSHIM_SYNC_MATCH
+ *                     sync points between git-ai's internal git calls (C11): an internal call
+ *                     whose argv (joined by ' ') contains one of the comma-separated substrings
+ *                     writes <dir>/<ppid>.<seq>.shim:<substring>.wait and waits (30 s bound) for the
+ *                     controller to create the matching .go file before the real git starts -
+ *                     the same protocol as the in-process sync points, keyed by the pid of the
+ *                     git-ai process that spawned the call
+ *
  * The proxied call is recognised by GITAI_SKIP_MANAGED_HOOKS=1, which git-ai
  * sets only on it; it is logged (n = 0) but never counted or failed.
  */
@@ -83,6 +91,34 @@ int main(int argc, char **argv) {
         int fd = open(logp, O_WRONLY | O_APPEND | O_CREAT, 0644);
         if (fd >= 0) { ssize_t w = write(fd, mem, sz); (void)w; close(fd); }
         free(mem);
+    }
+    const char *sdir = getenv("GITSHIM_SYNC_DIR");
+    const char *smatch = getenv("GITSHIM_SYNC_MATCH");
+    if (!proxied && sdir && *sdir && smatch && *smatch) {
+        size_t tot = 2;
+        for (int i = 1; i < argc; i++) tot += strlen(argv[i]) + 1;
+        char *joined = malloc(tot); joined[0] = 0;
+        for (int i = 1; i < argc; i++) { strcat(joined, argv[i]); strcat(joined, " "); }
+        char *pats = strdup(smatch);
+        for (char *tok = strtok(pats, ","); tok; tok = strtok(NULL, ",")) {
+            if (!*tok || !strstr(joined, tok)) continue;
+            char label[64]; size_t k = 0;
+            for (const char *q = tok; *q && k < sizeof label - 1; q++) label[k++] = (*q == ' ' || *q == '/' || *q == '.') ? '_' : *q;
+            label[k] = 0;
+            char base[4300];
+            snprintf(base, sizeof base, "%s/%d.%d.shim:%s", sdir, (int)getppid(), 1000000 + (int)getpid(), label);
+            char waitf[4400], gof[4400];
+            snprintf(waitf, sizeof waitf, "%s.wait", base);
+            snprintf(gof, sizeof gof, "%s.go", base);
+            int fd = open(waitf, O_WRONLY | O_CREAT, 0644);
+            if (fd >= 0) {
+                close(fd);
+                for (int i = 0; i < 15000 && access(gof, F_OK) != 0; i++) usleep(2000);
+                unlink(waitf); unlink(gof);
+            }
+            break;
+        }
+        free(pats); free(joined);
     }
     const char *at = getenv("GITSHIM_FAIL_AT");
     if (candidate && at && *at && n > 0 && atol(at) == n) {
